@@ -17,7 +17,8 @@ RULE = ("case = (module class, speedgrade, rate, DDR4 fine-refresh mode) x a lis
         "cycles(X)*n >= ck(X) (tRC against tRP+tRAS), and cycles(tREFI)*T <= tREFI_ns (exact fractions, 1 ps tolerance); "
         "SPD images: the same against an independent JEDEC decode of the SPD bytes; synthetic datasheets: classes generated "
         "with every notation of a value (ns, (ck, None), (None, ns), (ck, ns), absent; timing objects or plain attributes) and "
-        "random magnitudes, built at random rates 1:1..1:8 and refresh modes; non-trivial = the contract was evaluated "
+        "random magnitudes, built at random rates 1:1..1:8 and refresh modes; one case runs the repository's own tests (modules, "
+        "timing, refresh, bank machine, multiplexer, crossbar, BIST, DMA) with the contract on in record-only mode; non-trivial = the contract was evaluated "
         "and at least one ceiling was within 5% of flipping; distinct = distinct (class, speedgrade, rate, result vector)")
 ASSUMPTIONS = [
     "datasheet values are those in the class tables of litedram/modules.py (the property's reference)",
@@ -37,6 +38,9 @@ class TimingContractBroken(Exception):
 
 COUNTERS = dict(evaluations=0, near_flip=0)
 LAST = {}
+RECORD_ONLY = []      # non-empty: the contract records witnesses and returns True (used under the repository's own tests)
+RECORDED = []
+SEEN_CONFIGS = set()
 
 
 def _datasheet(module, name):
@@ -99,6 +103,12 @@ def timings_cover_datasheet(self):
     if LAST.get("near"):
         COUNTERS["near_flip"] += 1
     LAST["witness"] = w
+    if RECORD_ONLY:
+        SEEN_CONFIGS.add("%s|%s|%s|%s" % (type(self).__name__, self.speedgrade, self.rate, self.clk_freq))
+        for x in w:
+            RECORDED.append(dict(kind="unsafe-cycle-count", cls=type(self).__name__, clk_freq=self.clk_freq, rate=self.rate,
+                                 speedgrade=self.speedgrade, unsafe=[x], under="repository test suite"))
+        return True
     return not w
 
 
@@ -167,6 +177,10 @@ def cases(tier, seed):
         out.append(dict(kind="spd", file=fn, nlog=nlog, seed="C16/%d/%s" % (seed, fn), name="spd-" + fn, cost=1))
     # synthetic datasheets: every way a value can be written (ns, (ck, None), (None, ns), (ck, ns), absent), both class
     # styles (timing objects / plain attributes), random magnitudes -- the library only samples a few dozen values
+    # the repository's own tests as a workload, with the contract on in record-only mode
+    out.append(dict(kind="suite", tests=["test/test_modules.py", "test/test_timing.py", "test/test_refresh.py", "test/test_bankmachine.py",
+                                        "test/test_multiplexer.py", "test/test_crossbar.py", "test/test_bist.py", "test/test_dma.py"],
+                    seed="suite", name="repository-tests-under-contract", cost=50))
     for k in range(60 if tier == "quick" else 600):
         out.append(dict(kind="synthetic", nlog=40 if tier == "quick" else 80, seed="C16/%d/syn/%d" % (seed, k),
                         name="synthetic-%04d" % k, cost=1))
@@ -209,7 +223,38 @@ def synthetic_class(r):
     return type("Synthetic%s" % memtype, (M.SDRAMModule,), ns), style
 
 
+def run_suite_case(case):
+    import json
+    import subprocess
+    import sys
+    import tempfile
+    repo = os.environ.get("VERIF_REPO", "/repo")
+    here = os.path.dirname(os.path.dirname(os.path.dirname(os.path.abspath(__file__))))
+    with tempfile.TemporaryDirectory() as td:
+        out = os.path.join(td, "c16.json")
+        env = dict(os.environ, VERIF_C16_OUT=out, PYTHONPATH=os.pathsep.join([repo, here, os.path.join(here, ".deps")]))
+        tests = [t for t in case["tests"] if os.path.exists(os.path.join(repo, t))]
+        try:
+            p = subprocess.run([sys.executable, "-m", "pytest", "-q", "-p", "no:cacheprovider", "-p", "vfw.pytest_c16", "--timeout=600"] + tests,
+                               cwd=repo, env=env, stdout=subprocess.PIPE, stderr=subprocess.STDOUT, timeout=1500)
+        except subprocess.TimeoutExpired:
+            return dict(verdict="inconclusive", why="wall-clock watchdog (repository tests)", violations=[], stats={}, nontrivial=False, signature="")
+        tail = p.stdout.decode(errors="replace")[-400:]
+        if not os.path.exists(out):
+            return dict(verdict="inconclusive", why="plugin wrote nothing: " + tail, violations=[], stats={}, nontrivial=False, signature="")
+        d = json.load(open(out))
+    st = dict(constructions=d["evaluations"], contract_evaluations=d["evaluations"], near_flip=d["near_flip"], result_vectors=0,
+              distinct_configs_under_suite=len(d["configs"]), pytest_tail=tail.strip().splitlines()[-1] if tail.strip() else "")
+    if d["evaluations"] == 0:
+        return dict(verdict="inconclusive", why="contract never evaluated under the repository tests", violations=[], stats=st,
+                    nontrivial=False, signature="")
+    return dict(verdict="violated" if d["witnesses"] else "held", violations=d["witnesses"][:12], stats=st, nontrivial=True,
+                signature="suite|%d" % len(d["configs"]))
+
+
 def run_case(case):
+    if case["kind"] == "suite":
+        return run_suite_case(case)
     from litedram import modules as M
     install_contract()
     r = random.Random(case["seed"])
